@@ -115,3 +115,42 @@ void harness_reference(void)
 		WITNESS("an address conversion happened");
 }
 #endif
+
+/* O-d (kernel level): processing a buffer in two calls - the first on a prefix, the second
+ * on the unprocessed rest with the position advanced and the filter state carried over, as
+ * simple_code() does - gives the same bytes and the same total processed count as one call
+ * on the whole buffer.  This is where x86's prev_mask/prev_pos state crosses a call boundary. */
+void harness_kernel_split(void)
+{
+	size_t n = nd_size(), k = nd_size();
+	ASSUME(n <= NMAX && k <= n);
+	uint8_t one[NMAX], two[NMAX];
+	for (size_t i = 0; i < NMAX; ++i) {
+		one[i] = nd_u8();
+		two[i] = one[i];
+	}
+	uint32_t now_pos = nd_u32();
+	ASSUME((now_pos & (FALIGN - 1)) == 0);
+	bool enc = nd_bool();
+	DECL_STATE(s1);
+	DECL_STATE(s2);
+#ifdef IS_X86
+	s1.prev_mask = 0; s1.prev_pos = (uint32_t)(-5);
+	s2 = s1;
+#endif
+	size_t p = enc ? FENC(STATE_PTR(s1), now_pos, true, one, n) : FDEC(STATE_PTR(s1), now_pos, false, one, n);
+	size_t p1 = enc ? FENC(STATE_PTR(s2), now_pos, true, two, k) : FDEC(STATE_PTR(s2), now_pos, false, two, k);
+	CHECK(p1 <= k, "first call processes at most the prefix");
+	size_t p2 = enc ? FENC(STATE_PTR(s2), now_pos + (uint32_t)p1, true, two + p1, n - p1)
+			: FDEC(STATE_PTR(s2), now_pos + (uint32_t)p1, false, two + p1, n - p1);
+	CHECK(p1 + p2 == p, "two calls process as many bytes in total as one call");
+	bool changed = false;
+	for (size_t i = 0; i < NMAX; ++i)
+		if (i < n) {
+			CHECK(one[i] == two[i], "two calls produce the same bytes as one call");
+		}
+	/* (the carried state itself may differ in representation - prev_pos is clamped to
+	 * now_pos-5 at the start of each call - only its effect on later bytes matters) */
+	(void)changed;
+	if (k > 0 && k < n && p1 < k) WITNESS("split inside an unprocessed tail");
+}
